@@ -1,4 +1,41 @@
 import RP.Driver.Common
--- line-protocol driver for property C04 (stub)
-def handle (_line : String) : String := "unimplemented"
+import RP.Model.Showdown
+/-! line-protocol driver for C04:
+    `settle <n> <risked> <b|s|f> <strength> …` (n triples) → rewards in seat order.
+    Malformed input → `bad-op` (no defaults). -/
+open RP.Driver RP.Showdown
+
+namespace RP.DriverC04
+
+def int? (s : String) : Option Int :=
+  if s.startsWith "-" then (s.drop 1).toNat?.map (fun n => - Int.ofNat n) else s.toNat?.map Int.ofNat
+
+def status? : String → Option Status
+  | "b" => some .betting
+  | "s" => some .shoving
+  | "f" => some .folding
+  | _ => none
+
+def entries? : List String → Option (List Entry)
+  | [] => some []
+  | r :: s :: k :: rest =>
+    match int? r, status? s, k.toNat?, entries? rest with
+    | some r, some s, some k, some es => some (Entry.mk0 r s k :: es)
+    | _, _, _, _ => none
+  | _ => none
+
+def showInt (i : Int) : String := if i < 0 then s!"-{i.natAbs}" else s!"{i.natAbs}"
+
+end RP.DriverC04
+open RP.DriverC04
+
+def handle (line : String) : String :=
+  match words line with
+  | "settle" :: n :: rest =>
+    match n.toNat?, entries? rest with
+    | some n, some es =>
+      if es.length = n then joinSp ("rewards" :: (rewards es).map showInt) else "bad-op"
+    | _, _ => "bad-op"
+  | _ => "bad-op"
+
 def main : IO Unit := RP.Driver.run handle
